@@ -228,6 +228,7 @@ func init() {
 		}
 		runStreamProfile(o, r, profile{name: "ends", rounds: [2]int{5, 14}, cancel: 35, handlerEnd: 45, headers: 30, kinds: []string{"BD", "SS", "CS"}, returnCodes: []int64{0, 0, 5, 13, -1, -2}}, n)
 		runStreamProfile(o, r, profile{name: "early_return", rounds: [2]int{5, 12}, cancel: 5, handlerEnd: 90, headers: 30, kinds: []string{"BD", "SS", "CS"}, returnCodes: []int64{0, 14}}, n)
+		httpClientSchedules(o, r, n, "Http")
 		runC05HTTP(o, r, thorough)
 		o.Check, o.Oracle, o.Finding = "check_c05", "oracle_c05", "finding_case"
 		o.Shard = 30
